@@ -60,6 +60,8 @@ def make_obj(rng, typ, colors, types=None, depth=0):
         return typ(rng.choice(colors))
     if typ is Exit:
         return Exit(rng.choice(colors))
+    if typ.__name__ == 'Curtain':
+        return typ(rng.random() < 0.5)
     if typ is Box:
         inner = [t for t in (types or GRID_TYPES) if t is not Box or depth < 2]
         if not inner:
@@ -181,6 +183,10 @@ def rand_state(rng, types, colors, shape=None, category=None, hmax=7, wmax=7,
     if agent_on_free and grid[y, x].blocks_movement:
         grid[y, x] = Floor() if Floor in types else grid[y, x]
     held = rand_held(rng, types, colors)
+    if rng.random() < 0.25:
+        # numpy-integer coordinates, as the library's own reset functions produce them (rng.integers)
+        import numpy as np
+        y, x = np.int64(y), np.int64(x)
     return State(grid, Agent(Position(y, x), o, held)), cat
 
 
